@@ -940,3 +940,75 @@ func TestSharedArguments(t *testing.T) {
 	P.AddDistinct(n)
 	P.SetExtra("shared_argument_tokens", n)
 }
+
+
+// TestSealedLater: tokens built now and sealed more than a second later (queued, signed by another component, retried):
+// every field of the unsealed token - the issue time the library set by default included - is what the constructed
+// token reports. The random campaign seals within microseconds of building.
+func TestSealedLater(t *testing.T) {
+	ctx := &h.Ctx{P: P, T: t}
+	iss, aud := keys.Principal(0), keys.Principal(1)
+	type sealer interface {
+		ToSealed(crypto.PrivKey) ([]byte, cid.Cid, error)
+		ToDagJson(crypto.PrivKey) ([]byte, error)
+	}
+	var toks []token.Token
+	var what []string
+	add := func(tk token.Token, err error, w string) {
+		if err == nil {
+			toks, what = append(toks, tk), append(what, w)
+		}
+	}
+	iv, err := invocation.New(iss.DID, aud.DID, command.MustParse("/foo"), []cid.Cid{})
+	add(iv, err, "invocation with the default issue time")
+	iv, err = invocation.New(iss.DID, aud.DID, command.MustParse("/foo"), []cid.Cid{}, invocation.WithExpirationIn(time.Hour), invocation.WithMeta("k", "v"))
+	add(iv, err, "invocation with the default issue time and an expiration")
+	iv, err = invocation.New(iss.DID, aud.DID, command.MustParse("/foo"), []cid.Cid{}, invocation.WithInvokedAtIn(-time.Minute))
+	add(iv, err, "invocation with an explicit issue time")
+	iv, err = invocation.New(iss.DID, aud.DID, command.MustParse("/foo"), []cid.Cid{}, invocation.WithoutInvokedAt())
+	add(iv, err, "invocation without issue time")
+	d, err := delegation.New(iss.DID, aud.DID, command.MustParse("/foo"), policy.Policy{}, delegation.WithExpirationIn(time.Hour), delegation.WithNotBeforeIn(-time.Minute))
+	add(d, err, "delegation with both bounds")
+	d, err = delegation.Root(iss.DID, aud.DID, command.MustParse("/foo"), policy.Policy{})
+	add(d, err, "root delegation without bounds")
+	var views []tok.View
+	for _, tk := range toks {
+		v, _ := tok.ViewOf(tk)
+		views = append(views, v)
+	}
+	time.Sleep(1200 * time.Millisecond)
+	for i, tk := range toks {
+		for pass := 0; pass < 2; pass++ {
+			sealed, id, err := tk.(sealer).ToSealed(iss.Priv)
+			if err != nil {
+				ctx.Fail("C07/sealed-later/seal-fails", "%s: %v", what[i], err)
+				return
+			}
+			back, id2, err := token.FromSealed(sealed)
+			if err != nil || id2 != id {
+				ctx.Fail("C07/sealed-later/unseal-fails", "%s, sealed 1.2 s after it was built: %v", what[i], err)
+				return
+			}
+			if v1, err := tok.ViewOf(back); err != nil || tok.Diff(views[i], v1) != "" {
+				ctx.Fail("C07/sealed-later/changed/"+tok.Field(tok.Diff(views[i], v1)), "%s, sealed 1.2 s after it was built (sealing %d): the unsealed token differs from the constructed one: %s %v", what[i], pass+1, tok.Diff(views[i], v1), err)
+				return
+			}
+			if v2, _ := tok.ViewOf(tk); tok.Diff(views[i], v2) != "" {
+				ctx.Fail("C07/sealed-later/constructed-token-changed", "%s: sealing changed the constructed token: %s", what[i], tok.Diff(views[i], v2))
+				return
+			}
+			js, err := tk.(sealer).ToDagJson(iss.Priv)
+			if err == nil {
+				if bj, err := token.FromDagJson(js); err == nil {
+					if v1, err := tok.ViewOf(bj); err != nil || tok.Diff(views[i], v1) != "" {
+						ctx.Fail("C07/sealed-later/changed/"+tok.Field(tok.Diff(views[i], v1)), "%s, encoded as DAG-JSON 1.2 s after it was built: differs from the constructed one: %s", what[i], tok.Diff(views[i], v1))
+						return
+					}
+				}
+			}
+			time.Sleep(1100 * time.Millisecond)
+		}
+	}
+	P.EvalN(4 * len(toks))
+	P.AddDistinct(len(toks))
+}
